@@ -913,7 +913,7 @@ func TestVerifC19Rules(t *testing.T) {
 
 				// quick: a part of the product per run (which part rotates with the seed), but below `config` always
 				// the replacement by an int and by a map with a non-string key
-				if quick && (pi+k+rot)%[]int{8, 2, 2, 8}[bi] != 0 && !(underConfig && (k == 1 || k == 11)) {
+				if quick && (pi+k+rot)%[]int{10, 3, 3, 12}[bi] != 0 && !(underConfig && (k == 1 || k == 11)) {
 					continue
 				}
 
@@ -951,7 +951,7 @@ func TestVerifC19Rules(t *testing.T) {
 
 			for vi, v := range badStrings {
 				n++
-				if quick && (n+bi+rot)%15 != 0 {
+				if quick && (n+bi+rot)%20 != 0 {
 					continue
 				}
 
@@ -989,7 +989,7 @@ func TestVerifC19Rules(t *testing.T) {
 
 				for k := 0; k < c19Kinds; k++ {
 					n++
-					if quick && (n+rot)%27 != 0 {
+					if quick && (n+rot)%36 != 0 {
 						continue
 					}
 
